@@ -31,9 +31,11 @@ CONSTANTS N, C,
           Scales, Shifts,
           Dev
 
-VARIABLES smp, mu0, var0, w0, kind, rel, vfl, uw, um, uv,     \* scenario
+VARIABLES smp, mu0, var0, w0, kind, rel, vfl, uw, um, uv,     \* scenario (mu0, var0, w0: the machine's parameters before
+                                                             \* an ML step; the PRIOR's parameters for a MAP step)
+          cur,                                                \* MAP: the machine's current means (a warm start may differ from the prior's)
           w, mu, var, free, done
-vars == <<smp, mu0, var0, w0, kind, rel, vfl, uw, um, uv, w, mu, var, free, done>>
+vars == <<smp, mu0, var0, w0, kind, rel, vfl, uw, um, uv, cur, w, mu, var, free, done>>
 
 Idx == 1..N
 Comp == 1..C
@@ -63,7 +65,7 @@ MLStep(s) == MLStepP(s, mu0, var0, w0, vfl)
 
 \* ---------------- MAP
 Alpha(s, c) == IF rel.reynolds THEN Div(Nn(s, c), Add(Nn(s, c), rel.val)) ELSE rel.val
-MAPStepP(s, pm, pv, pw, fl) ==
+MAPStepP(s, pm, pv, pw, fl, cm) ==
     LET a == [c \in Comp |-> Alpha(s, c)]
         none == [c \in Comp |-> Lt(Nn(s, c), CThr)]          \* no evidence for the component
         blendw == [c \in Comp |-> Add(Mul(a[c], Div(Nn(s, c), R(N))), Mul(Sub(One, a[c]), pw[c]))]
@@ -71,25 +73,26 @@ MAPStepP(s, pm, pv, pw, fl) ==
         nw == IF uw THEN [c \in Comp |-> Div(blendw[c], gamma)] ELSE pw
         nm == IF um THEN [c \in Comp |-> IF none[c] THEN pm[c]
                                          ELSE Add(Mul(a[c], Div(Px(s, c), Nn(s, c))), Mul(Sub(One, a[c]), pm[c]))]
-              ELSE pm
+              ELSE cm       \* means not adapted: the machine's current means stay in place
         prior2 == [c \in Comp |-> IF "MAP_VAR_PRIOR_MEAN_NOT_SQUARED" \in Dev THEN Add(pv[c], pm[c])
                                                                              ELSE Add(pv[c], Sq(pm[c]))]
         raw == [c \in Comp |-> IF none[c] THEN Sub(prior2[c], Sq(nm[c]))
                                ELSE Sub(Add(Mul(a[c], Div(Pxx(s, c), Nn(s, c))), Mul(Sub(One, a[c]), prior2[c])), Sq(nm[c]))]
         nv == IF uv THEN [c \in Comp |-> ClampF(fl, raw[c])] ELSE pv
     IN [w |-> nw, mu |-> nm, var |-> nv, free |-> [c \in Comp |-> FALSE]]
-MAPStep(s) == MAPStepP(s, mu0, var0, w0, vfl)
+MAPStep(s) == MAPStepP(s, mu0, var0, w0, vfl, cur)
 
 Init == /\ smp \in Samples /\ mu0 \in OldMeans /\ var0 \in OldVars /\ w0 \in OldWeights
         /\ kind \in Kinds /\ rel \in Rels /\ vfl \in VFloors
         /\ uw \in BOOLEAN /\ um \in BOOLEAN /\ uv \in BOOLEAN /\ (uw \/ um \/ uv)
         /\ (kind = "ml" => rel = CHOOSE x \in Rels : TRUE)          \* irrelevant for ML: one representative
-        /\ w = w0 /\ mu = mu0 /\ var = var0 /\ free = [c \in Comp |-> FALSE] /\ done = FALSE
+        /\ cur \in (IF kind = "map" THEN OldMeans ELSE {mu0})
+        /\ w = w0 /\ mu = cur /\ var = var0 /\ free = [c \in Comp |-> FALSE] /\ done = FALSE
 
 MStep == /\ ~done /\ done' = TRUE
          /\ LET res == IF kind = "ml" THEN MLStep(smp) ELSE MAPStep(smp)
             IN w' = res.w /\ mu' = res.mu /\ var' = res.var /\ free' = res.free
-         /\ UNCHANGED <<smp, mu0, var0, w0, kind, rel, vfl, uw, um, uv>>
+         /\ UNCHANGED <<smp, mu0, var0, w0, kind, rel, vfl, uw, um, uv, cur>>
 Spec == Init /\ [][MStep]_vars
 
 \* ---------------- properties
@@ -125,6 +128,7 @@ NoEvidenceKeepsPrior ==
     (done /\ kind = "map") => \A c \in Comp : ~Evid(c) =>
         /\ um => mu[c] = mu0[c]
         /\ (uv /\ um) => var[c] = Clamp(var0[c])
+        /\ ~um => mu[c] = cur[c]
 \* large relevance factor -> prior, small -> ML estimate (rational inequalities)
 RelevanceLimits ==
     (done /\ kind = "map" /\ rel.reynolds /\ um) => \A c \in Comp : Evid(c) =>
@@ -143,7 +147,8 @@ AffineEquivariant ==
             a2 == Sq(a)
             tm == [c \in Comp |-> Add(Mul(a, mu0[c]), R(b))]
             tv == [c \in Comp |-> Mul(a2, var0[c])]
-            res == IF kind = "ml" THEN MLStepP(s2, tm, tv, w0, Mul(a2, vfl)) ELSE MAPStepP(s2, tm, tv, w0, Mul(a2, vfl))
+            tc == [c \in Comp |-> Add(Mul(a, cur[c]), R(b))]
+            res == IF kind = "ml" THEN MLStepP(s2, tm, tv, w0, Mul(a2, vfl)) ELSE MAPStepP(s2, tm, tv, w0, Mul(a2, vfl), tc)
         IN \A c \in Comp : ~free[c] =>
               /\ res.w[c] = w[c]
               /\ res.mu[c] = Add(Mul(a, mu[c]), R(b))
@@ -152,7 +157,7 @@ AffineEquivariant ==
               /\ (kind = "map" /\ uv /\ ~um) \/ res.var[c] = Mul(a2, var[c])
 
 Export == done => PrintT(ToJson([smp |-> smp, mu0 |-> mu0, var0 |-> var0, w0 |-> w0, kind |-> kind, rel |-> rel,
-                                 vfl |-> vfl, uw |-> uw, um |-> um, uv |-> uv,
+                                 vfl |-> vfl, uw |-> uw, um |-> um, uv |-> uv, cur |-> cur,
                                  n |-> [c \in Comp |-> Nn(smp, c)], px |-> [c \in Comp |-> Px(smp, c)],
                                  pxx |-> [c \in Comp |-> Pxx(smp, c)],
                                  w |-> w, mu |-> mu, var |-> var, free |-> free]))
